@@ -124,7 +124,11 @@ def replay(case) -> dict:
     pos = np.asarray(_positions(cfg["lattice"], n, rng), dtype=np.float64).reshape(n, 3)
     if cfg.get("layout") == "f":
         pos = np.asfortranarray(pos.astype(np.float32))       # e.g. np.array([zs, ys, xs]).T: column-major, already float32
-    mol = Molecules(pos, _rotations(cfg["rots"], n, rng), features=_features(cfg["feats"], n, rng))
+    if n == 0:       # an empty table still has its feature columns
+        f0 = _features(cfg["feats"], 1, rng)
+        mol = Molecules(np.zeros((0, 3)), None, features=None if f0 is None else f0.clear())
+    else:
+        mol = Molecules(pos, _rotations(cfg["rots"], n, rng), features=_features(cfg["feats"], n, rng))
     ev = dict(id=str(case["_i"]), via=cfg["via"], suffix=cfg["suffix"], prec=cfg["prec"], cols=list(mol.features.columns),
               header=[], stored_as="", rows=_rows(mol), back=[], err="", cols_back=[])
     tmp = tempfile.mkdtemp(prefix="c13-", dir=str(engine.WORK))
